@@ -1,5 +1,6 @@
 """C19 - ParseSchema updates exactly the members the existing document declares."""
 import os
+import re
 import sys
 sys.path.insert(0, os.path.dirname(os.path.dirname(os.path.abspath(__file__))))
 from gen import mergegen as MG
@@ -51,6 +52,13 @@ def generate(rng, tier):
         line = f"schema {alloc} {G.hx(MG.text(rng, e))} " + " ".join(G.hx(MG.text(rng, t)) for t in texts)
         cases.append({"lines": [line], "cls": f"x{n}/{alloc}", "ntexts": n, "empty_obj": any(MG.has_empty_obj(t) for t in texts),
                       "nontrivial": isinstance(e, tuple) and e[0] == "o" and bool(e[1])})
+    # existing documents whose object members were emptied through the mutation API first (value `{}`, capacity / map retained):
+    # "the existing side is not a non-empty object" - the text's value must be taken whole
+    for k in range(150 if quick else 10000):
+        e, t = MG.schema_pair(rng)
+        alloc = ["pool", "simple", "track"][k % 3]
+        cases.append({"lines": [f"schema-prep{rng.choice([1, 2, 3])} {alloc} {G.hx(e)} {G.hx(t)}"], "cls": f"prep/{alloc}", "ntexts": 1, "empty_obj": re.search(rb"\{\s*\}", t) is not None,
+                      "nontrivial": True})
     return cases
 
 
